@@ -100,6 +100,28 @@ def gen_points(rng, fmt, prog, n):
         if rng.random() < 0.5:
             a, b = b, a
         pts.append(("edge", rnd_sign(a), rnd_sign(b)))
+    # universal critical magnitudes (overflow / underflow boundaries of the elementary functions the algorithms call): not
+    # constants of the program, but where exp / log / sqrt / squares of an input change regime
+    import math
+    import numpy
+    fi = numpy.finfo(fpx.NPF[fmt])
+    U = [math.log(float(fi.max)), math.log(float(fi.max)) / 2, -math.log(float(fi.smallest_normal)), -math.log(float(fi.smallest_subnormal)),
+         math.sqrt(float(fi.max)), math.sqrt(float(fi.smallest_normal)), float(fi.max) / 2, float(fi.max) / 4, float(fi.smallest_normal),
+         math.pi / 2, math.pi, math.log(2.0)]
+    uni = [int(ir.canon_bits(ir.bits_of(fpx.NPF[fmt](u), fmt), fmt)) & ~sign for u in U]
+    crit = ths + uni
+    # (c'') NEAR a critical magnitude: relative distance log-uniform from 1 ULP to 2^-4, either side; the other component anywhere
+    def near(t):
+        k = rng.randrange(0, p - 4)
+        d = rng.randrange(1 << k, 2 << k)
+        return max(1, min(inf - 1, (t & ~sign) + (d if rng.random() < 0.5 else -d)))
+    for _ in range(n):
+        a = near(rng.choice(crit))
+        r = rng.random()
+        b = near(rng.choice(crit)) if r < 0.3 else (rng.randrange(0, inf) if r < 0.6 else ((bias + rng.randrange(-12, 12)) << (p - 1)) | rng.getrandbits(p - 1))
+        if rng.random() < 0.5:
+            a, b = b, a
+        pts.append(("near", rnd_sign(a), rnd_sign(b)))
     # (c') threshold BANDS: both components within a factor 2^4 of (possibly different) threshold constants, log-uniform inside
     # the band — a changed threshold damages a region that is thin in one direction only when seen through the other
     # component (e.g. big component in [T, 8T) while the other is a few octaves below another threshold T')
@@ -108,7 +130,7 @@ def gen_points(rng, fmt, prog, n):
         e = max(0, min((1 << ew) - 2, e + rng.randrange(-4, 5)))
         return (e << (p - 1)) | rng.getrandbits(p - 1)
     for _ in range(n):
-        pts.append(("band", rnd_sign(band(rng.choice(ths))), rnd_sign(band(rng.choice(ths)))))
+        pts.append(("band", rnd_sign(band(rng.choice(crit))), rnd_sign(band(rng.choice(crit)))))
     # (d) special lattice (finite and infinite)
     L = [0, 1, 1 << (p - 1), bias << (p - 1), inf - 1, inf]
     L = L + [v | sign for v in L]
